@@ -54,9 +54,10 @@ class InstantiatedGlobalFunction(parser.GlobalFunction):
     def to_cpp(self):
         """Generate the C++ code for wrapping."""
         if self.original.template:
+            # to_cpp keeps the namespaces and the template arguments of each
+            # instantiation (as the method templates do)
             instantiated_names = [
-                "::".join(inst.namespaces + [inst.instantiated_name()])
-                for inst in self.instantiations
+                inst.to_cpp() for inst in self.instantiations
             ]
             ret = "{}<{}>".format(self.original.name,
                                   ",".join(instantiated_names))
